@@ -45,4 +45,16 @@ theorem PTFR_roundtrip (s t : PTFR.State) (h : PTFR_WF s) (hL : s.payload.length
     ∃ b, (PTFR.pack s).2 = .ok b ∧ PTFR.unpack t b = ({ s with length := t.length }, .ok ()) :=
   ⟨_, by rw [ptfr_pack_eq s h], ptfr_unpack_noisy s t h 0 (by decide) wt_zero_le hL⟩
 
+/-- review: joint witness for `PTFR_roundtrip` (well-formed frame AND a receiving object whose `length` allows the
+    payload), and for `PTDP_roundtrip` with a non-empty tail and a receiver in another state -/
+example : PTFR_WF { PTFR.fresh with streamid := 1, ptdp_offset := 3, length := 2, payload := [9, 9] } ∧
+    ({ PTFR.fresh with streamid := 1, ptdp_offset := 3, length := 2, payload := [9, 9] } : PTFR.State).payload.length ≤
+      ({ PTFR.fresh with length := 5, payload := [1], llp := true } : PTFR.State).length := by
+  simp [PTFR_WF, PTFR.fresh]
+/-- the receiver's `length` option decides acceptance: a 2-byte payload does not go into a frame object of length 1
+    (`PTFR_ok_iff` in C09 is the exact boundary) -/
+example : ¬ (({ PTFR.fresh with streamid := 1, ptdp_offset := 3, length := 2, payload := [9, 9] } : PTFR.State).payload.length ≤
+      ({ PTFR.fresh with length := 1 } : PTFR.State).length) := by
+  simp
+
 end Acra.Props.C10
